@@ -145,7 +145,7 @@ var WordPool = []string{
 	"Zulu", "Xray", "NASA", "4", "42", "正確", "馬", "ß", "ice cream", "Ice Cream", "don't", "x_y",
 	"été", "Été", "ñu", "a", "A", "b", "zz", "ǆemal", "ﬁn", "o'neil", "été été", "-", "q", "r", "s", "tt", "uu",
 	// title forms that sort AFTER the word in byte order, and short words whose concatenations collide
-	"ÿves", "Ÿves", "µm", "Μm", "ab", "ba",
+	"ÿves", "Ÿves", "µm", "Μm", "ab", "ba", "ÉTÉ", "ÑU",
 }
 
 // LowerPool: words that all change under title-casing and have pairwise
